@@ -25,7 +25,7 @@ CHECKS = {
     'C04': ('translation_validation', A_TEXT.format(what='length-of back-patching with an arbitrary caller-supplied length value'), A_NOTE, 'symbolic execution of emitted encoders/decoders on the length-of family + z3', '5 C04'),
     'C05': ('translation_validation', A_TEXT.format(what='match dispatch with the key symbolic over its whole type: every decode path is checked against the DSL table, unmapped keys must end in a reported error'), A_NOTE, 'symbolic key, path enumeration with solver-decided feasibility, validity queries against the DSL table', '5 C05'),
     'C06': ('translation_validation', A_TEXT.format(what='checksum fields with the algorithm as an uninterpreted function of the written prefix, registered and unregistered'), A_NOTE, 'symbolic execution with uninterpreted checksum function + z3', '5 C06'),
-    'C07': ('translation_validation', 'Validity gate: every emitted file is compiled by the target language\'s own front end against the runtime API (a reject while fin-protoc exited 0 is the violation); completeness by solver: for each declared field an influence query (two messages differing only in that field with equal encodings must be unsat) and member presence in the lowered types. ' + 'Lua is covered by C15.', A_NOTE + ' The validity gate itself is compilation, not a solver verdict; the evidence separates the two.', 'target compilers as validity gate + z3 influence queries on symbolic encoder summaries', '5 C07'),
+    'C07': ('translation_validation', 'Validity gate: every emitted file is compiled by the target language\'s own front end against the runtime API (a reject while fin-protoc exited 0 is the violation); completeness by solver: for each declared field an influence query (two messages differing only in that field with equal encodings must be unsat) and member presence in the lowered types. ' + 'All six targets: the Lua script is judged by the Lua front-end of C15 (parse + scope resolution). In the dispatch family every declared match key must have its decode step (the queries of C05 under C07).', A_NOTE + ' The validity gate itself is compilation, not a solver verdict; the evidence separates the two.', 'target compilers as validity gate + z3 influence queries on symbolic encoder summaries', '5 C07'),
 }
 m = {
     'version': 1,
